@@ -78,6 +78,11 @@ def run(ctx):
            C.data.get('star') is not None or (len(C.node.args) == 1 and isinstance(C.node.args[0], ast.Starred)
                                               and any(k.arg is None for k in C.node.keywords)),
            {'call': C.text()}, node=C.node)
+    te = ctx.func('frame.Frame.ts_ext')
+    rte, Ite_ = ctx.run(te, expand=False)
+    ctx.formula('FORMULA', 'the extra smearing time sample follows the (shifted) axis: ts_ext == append(ts, ts[-1] + dt)', te, rte.ret,
+                ctx.spec(te, 'np.append(self.ts, self.ts[-1] + self.dt)', I=ctx.interp(expand=False)), node=te.node,
+                construct='return ts_ext [relative to ts]')
     # ---- D2 restoration on every exit
     ctx.clause = 'D2'
     ctx.require(after, 'Cadence.add_signal never restores the frame time axis')
@@ -108,6 +113,11 @@ def run(ctx):
     agree_ref(ctx, ctx.func(CD + 'consolidate'), REF_CONSOLIDATE, 'consolidate: data concatenated on the time axis in list order, '
               'absolute times', what=('return', 'attrstores', 'calls'), expand=False, no_inline=('frame.Frame.__init__',),
               max_depth=1)
+    from .c18 import REFS as C18REFS
+    gi = ctx.func(CD + '__getitem__')
+    agree_ref(ctx, gi, C18REFS[CD + '__getitem__'][0], 'selecting a sub-cadence shares the frames and never re-times them (no slew / '
+              'overwrite options are passed on)', what=('return', 'calls'), expand=False, max_depth=0,
+              no_inline=(CD + '__init__',))
     init = ctx.func(CD + '__init__')
     r, I = ctx.run(init, max_depth=0, expand=False)
     ow = [e for e in I.events if e.kind == 'call' and e.data.get('name') == CD + 'overwrite_times']
